@@ -8,7 +8,9 @@
 //! or after signing, bit flips, count edits, records after the TSIG record, trailing bytes, clock
 //! offsets, unknown / wrongly keyed / wrong-algorithm clients.  Observed: the MAC input the server
 //! reconstructs, the verdict of `verify_message_byte`, the reply (rcode, TSIG record), the zone dump
-//! before/after, the verdict of the client verifier on the reply and on a bit-flipped reply.
+//! before/after, the verdict of the client verifier on the reply, on one modified reply (bit flip,
+//! count overflow, duplicated TSIG record, trailing bytes) and on a chained second message signed here
+//! (first_message = false).
 //!
 //! The oracle evaluates the property directly: an effect (zone changed / zone data returned under
 //! the signed-only policy) only for requests that are valid by construction; every valid request
@@ -435,7 +437,8 @@ struct Scn {
     ft: u64,
     ff: u16,
     msg: Message,
-    underflow: bool,
+    /// fixed corpus cases force the family of the modified reply
+    force_fam: Option<u64>,
 }
 
 fn base_message(r: &mut Rng, axfr: bool, id: u16) -> Message {
@@ -772,7 +775,7 @@ fn gen(seed: u64, index: u64) -> Scn {
         kind.push_str("+clock-edge");
     }
     let now = (ft as i64 + off).max(0) as u64;
-    Scn { kind, axfr, cfg, client, t, now, req, sig, ft, ff, msg, underflow }
+    Scn { kind, axfr, cfg, client, t, now, req, sig, ft, ff, msg, force_fam: None }
 }
 
 /// rewrite the records after the question so that every owner name that ends in a pointer to offset 12
@@ -845,8 +848,51 @@ fn is_label_content(tf: &TF, off: usize) -> bool {
     false
 }
 
+/// Fixed corpus (indices FIXED_BASE + k under any seed): the witnesses of the three repaired findings
+/// (fixes 1bb1e89, 4e36f86).  They must never panic again: time < fudge is served inside [0, time+fudge) and gets
+/// BADTIME outside; ANCOUNT+NSCOUNT > 65535 and a duplicated TSIG record are decoding errors.
+const FIXED_BASE: u64 = 1_000_000_000;
+const FIXED_N: u64 = 5;
+const M_UF: &str = "ea0328000001000000020001076578616d706c6503636f6d0000060001046e657737c00c000100010000007800040a01ef29056e65773732c00c000100010000007800040a018ef70a7570646174652d6b6579076578616d706c6503636f6d0000fa00ff00000000003d0b686d61632d73686132353600000000000124012c00203d4dc04eb6f86e369bd4c2cc24a485a23e122a1fdabc02017dd9c0e96aa5e8cbea0300000000";
+const M_CNT: &str = "cf7328000001ffff00020001076578616d706c6503636f6d0000060001046e657737c00c000100010000007800040a01e8ae056e65773533c00c000100010000007800040a01bd620a7570646174652d6b6579076578616d706c6503636f6d0000fa00ff00000000003d0b686d61632d7368613235360000006553f19e012c00209e6616161962ec10fcc1137ecf38b9679eb924d0f3481b296c3b87193fd87ce1cf7300000000";
+const M_OK: &str = "61f828000001000000010001076578616d706c6503636f6d0000060001056e65773130c00c000100010000007800040a01cf450a7570646174652d6b6579076578616d706c6503636f6d0000fa00ff00000000003d0b686d61632d7368613235360000006553f1f8012c002090ccd857f5e642c633800ab9d3baea2bb0423198ff5f8b9fba1a61493317573661f800000000";
+
+fn fixed(k: u64) -> Scn {
+    let cfg = SrvCfg { keys: vec![0], allow_update: true, policy: 2 };
+    let unsigned_of = |req: &[u8]| -> Message {
+        let mut m = Message::from_vec(req).expect("corpus request decodes");
+        m.take_signature();
+        m
+    };
+    match k {
+        0 | 1 => {
+            // time 292 < fudge 300, valid MAC: inside the saturated window (served) / at its end (BADTIME)
+            let req = unhex(M_UF);
+            let msg = unsigned_of(&req);
+            let now = if k == 0 { 292 } else { 592 };
+            Scn { kind: format!("corpus:time<fudge now={now}"), axfr: false, cfg, client: 0, t: 292, now, req, sig: Validity::Valid, ft: 292, ff: 300, msg, force_fam: Some(5) }
+        }
+        2 => {
+            // ANCOUNT=0xffff NSCOUNT=2 on a request: must be a decoding error everywhere
+            let req = unhex(M_CNT);
+            let msg = unsigned_of(&unhex(M_OK));
+            Scn { kind: "corpus:count-overflow-request".into(), axfr: false, cfg, client: 0, t: 1700000158, now: 1700000158, req, sig: Validity::Invalid, ft: 1700000158, ff: 300, msg, force_fam: Some(5) }
+        }
+        _ => {
+            // an accepted request whose reply is attacked with the count overflow (3) / the duplicated TSIG record (4)
+            let req = unhex(M_OK);
+            let msg = unsigned_of(&req);
+            Scn {
+                kind: format!("corpus:reply-{}", if k == 3 { "count-overflow" } else { "double-tsig" }),
+                axfr: false, cfg, client: 0, t: 1700000248, now: 1700000244, req, sig: Validity::Valid, ft: 1700000248, ff: 300, msg,
+                force_fam: Some(k - 3),
+            }
+        }
+    }
+}
+
 fn case(rt: &tokio::runtime::Runtime, seed: u64, index: u64) -> CaseOut {
-    let s = gen(seed, index);
+    let s = if index >= FIXED_BASE { fixed(index - FIXED_BASE) } else { gen(seed, index) };
     let ck = KEYS[s.client];
     let client_signer = signer_of(&ck);
     let mut subs: Vec<String> = vec![];
@@ -891,14 +937,13 @@ fn case(rt: &tokio::runtime::Runtime, seed: u64, index: u64) -> CaseOut {
     // -- the server
     let o = serve(rt, &s.cfg, &s.req, s.now);
     let in_window_rfc = (s.now as i128 - s.ft as i128).abs() <= s.ff as i128;
-    let strictly_inside = (s.now as i128 - s.ft as i128).abs() < s.ff as i128 && s.ft >= s.ff as u64;
+    let strictly_inside = (s.now as i128 - s.ft as i128).abs() < s.ff as i128;
     let policy_ok = if s.axfr { s.cfg.policy == 2 } else { s.cfg.allow_update };
     let valid = s.sig == Validity::Valid && in_window_rfc && policy_ok;
     let benign = s.sig == Validity::BenignDeviation && in_window_rfc && policy_ok;
     let effect = o.changed || (o.route == 1 && s.cfg.policy != 1 && o.data) || (o.route == 0 && o.data);
     if let Some(p) = &o.panicked {
-        let k = if s.underflow && s.sig == Validity::Valid && s.ft < s.ff as u64 { Some("C13-F7-time-underflow") } else { None };
-        fails.push((format!("server panicked: {p}"), k));
+        fails.push((format!("server panicked: {p}"), None));
     }
     if effect && !valid {
         if benign && o.panicked.is_none() {
@@ -980,7 +1025,7 @@ fn case(rt: &tokio::runtime::Runtime, seed: u64, index: u64) -> CaseOut {
             // the reply window is now +- server fudge, tested against the client's request time
             let sf = s.cfg.keys.iter().copied().find(|k| lower(&labels(KEYS[*k].name)) == lower(&labels(ck.name))).map(|k| KEYS[k].fudge as i128).unwrap_or(0);
             let d = s.now as i128 - s.t as i128;
-            let reply_timely = d > -sf && d < sf && s.now as i128 >= sf;
+            let reply_timely = d > -sf && d < sf;
             let pristine_req = s.sig == Validity::Valid && o.req_mac == h_mac;
             if o.tsig_class == 3 && pristine_req && reply_timely && ocl != 1 {
                 fails.push((format!("client verifier rejects the server's signed reply (ocl={ocl})"), None));
@@ -1079,12 +1124,10 @@ fn case(rt: &tokio::runtime::Runtime, seed: u64, index: u64) -> CaseOut {
                         if !first_ok {
                             fails.push(("verifier state: the accepted reply is not accepted a second time".into(), None));
                         } else if ocl3 == 9 {
-                            if !(time2 < fudge2 as u64 && !spoiled) {
-                                fails.push(("client verifier panicked on a chained message".into(), None));
-                            }
+                            fails.push(("client verifier panicked on a chained message".into(), None));
                         } else if ocl3 == 1 && (spoiled || time2 < sg.data.time || dd.abs() > f2) {
                             fails.push((format!("client verifier accepts a chained message it must reject (spoiled={spoiled} time2={time2} prev_time={} T-time2={dd} fudge={fudge2})", sg.data.time), None));
-                        } else if ocl3 == 0 && !spoiled && time2 >= sg.data.time && dd.abs() < f2 && time2 >= fudge2 as u64 {
+                        } else if ocl3 == 0 && !spoiled && time2 >= sg.data.time && dd.abs() < f2 {
                             fails.push((format!("client verifier rejects a correctly chained message (time2={time2} fudge={fudge2} T={})", s.t), None));
                         }
                         if m2otbs.as_ref() != Some(&tbs2) && m2deep && m2otbs.is_some() {
@@ -1098,8 +1141,7 @@ fn case(rt: &tokio::runtime::Runtime, seed: u64, index: u64) -> CaseOut {
                 let mut r2 = Rng::for_case(seed ^ 0x5151, index);
                 let mut ed: Vec<(usize, u8)> = vec![];
                 let mut app: Vec<u8> = vec![];
-                // the two families that are known to panic are only tried on otherwise clean cases
-                let fam = if fails.is_empty() { r2.below(12) } else { 5 };
+                let fam = s.force_fam.unwrap_or_else(|| r2.below(12));
                 let mut what = String::new();
                 let mut uncovered_ok = false; // a modification RFC 8945 itself leaves outside the MAC input
                 let mut known_class: Option<&'static str> = None;
@@ -1107,7 +1149,6 @@ fn case(rt: &tokio::runtime::Runtime, seed: u64, index: u64) -> CaseOut {
                     0 => {
                         what = "ANCOUNT=0xffff NSCOUNT>=1".into();
                         ed = vec![(6, 0xff), (7, 0xff), (8, 0), (9, 1 + r2.below(3) as u8)];
-                        known_class = Some("C13-client-count-overflow");
                     }
                     1 => {
                         // the TSIG record appended once more, counted
@@ -1122,7 +1163,6 @@ fn case(rt: &tokio::runtime::Runtime, seed: u64, index: u64) -> CaseOut {
                                     let ar = u16::from_be_bytes([reply[10], reply[11]]) + 1;
                                     ed = vec![(10, (ar >> 8) as u8), (11, ar as u8)];
                                     what = "TSIG record duplicated".into();
-                                    known_class = Some("C13-client-double-tsig");
                                 }
                             }
                         }
@@ -1174,7 +1214,7 @@ fn case(rt: &tokio::runtime::Runtime, seed: u64, index: u64) -> CaseOut {
                             let _ = uncovered_ok;
                         }
                     } else if ocl2 == 9 {
-                        fails.push((format!("client verifier panicked on a modified reply ({what})"), known_class.filter(|k| k.starts_with("C13-client"))));
+                        fails.push((format!("client verifier panicked on a modified reply ({what})"), None));
                     }
                 }
             }
@@ -1246,7 +1286,7 @@ fn main() {
         return;
     }
     let mut cases = vec![];
-    for index in 0..args.n {
+    for index in (0..args.n).chain(FIXED_BASE..FIXED_BASE + FIXED_N) {
         cases.push(case(&rt, args.seed, index));
     }
     emit(
